@@ -177,7 +177,9 @@ static void c0205_case(const uint8_t* src, size_t n) {
   ta_reset_stats();
   struct cbor_load_result r;
   memset(&r, 0xAA, sizeof r);
+  vh_ambient_scramble(vh_hash(src, n) >> 9); /* stale errno / rounding mode must not influence decoding */
   cbor_item_t* it = cbor_load(in, n, &r);
+  vh_ambient_restore();
   uint64_t refused = TA.refused;
   const char* why = "";
   bool nontrivial = false;
@@ -200,6 +202,7 @@ static void c0205_case(const uint8_t* src, size_t n) {
           vh_violation("node-not-solely-owned", "a node of the returned tree has reference count != 1: %s", (char*)pr.p);
           vb_free(&pr);
         }
+        { const char* bad = walk_check_predicates(it); if (bad) vh_violation("predicates-inconsistent", "on a node of the returned tree %s", bad); }
         { int partial = 0; ro_each_node(it, filled_cb, &partial);
           /* "completely filled" (size == declared count) is judged by the tree comparison below; spare capacity is only observed */
           if (partial) VH_COUNT("decoded_definite_containers_with_spare_capacity", partial); }
@@ -397,7 +400,9 @@ static void run_input(const uint8_t* p, size_t n) {
 }
 static void input_cb(const uint8_t* p, size_t n, void* ud) { (void)ud; run_input(p, n); }
 
+static void hugebuf_case(const uint8_t* x, size_t nx, size_t claimed);
 static void load_exec(const uint8_t* d, size_t n) {
+  if (!strcmp(O.stage, "hugebuf") && n >= 9 && d[0] == 'H') { size_t c = 0; for (int i = 0; i < 8; i++) c = c << 8 | d[1 + i]; hugebuf_case(d + 9, n - 9, c); return; }
   if (P == 14) {
     if (n >= 3 && d[0] == 0xff && d[1] == 0xff) {
       size_t k = d[2], off = 3;
@@ -536,7 +541,8 @@ static void stage_gram(void) {
     rn_free(t);
     vh_count_dyn(u < nsys ? "base_items.systematic" : "base_items.random", 1);
     run_input(x.p, x.n);
-    bool full = u < nsys ? (O.thorough || (u % 8 == 0)) : (u % 64 == 0);
+    uint64_t uh = (u * 0x9e3779b97f4a7c15ull) >> 40; /* decorrelated from the shard assignment */
+    bool full = u < nsys ? (O.thorough || (uh % 8 == 0)) : (uh % 64 == 0);
     if (x.n <= 4096) gen_neighbours(x.p, x.n, full, input_cb, NULL);
     /* havoc: several random edits at once (beyond the single-edit neighbourhood) */
     if (x.n >= 2 && x.n <= 2048) {
@@ -676,6 +682,60 @@ static void stage_seq(void) {
   vb_free(&x);
 }
 
+/* ---- stage: hugebuf — the caller's buffer itself is larger than 4 GiB (x followed by gigabytes of y) ---- */
+static void hugebuf_case(const uint8_t* x, size_t nx, size_t claimed) {
+  struct vh_buf d = {0};
+  vb_u8(&d, 'H'); vb_be(&d, claimed, 8); vb_put(&d, x, nx);
+  if (!vh_case(d.p, d.n)) { vb_free(&d); return; }
+  size_t rl;
+  uint8_t* reg = vh_huge_region(&rl);
+  if (!reg || claimed > rl) { VH_COUNT("huge.skipped_no_address_space", 1); vb_free(&d); return; }
+  uint8_t* ex = vh_exact(x, nx);
+  struct cbor_load_result ra, rb;
+  memset(&ra, 0, sizeof ra); memset(&rb, 0, sizeof rb);
+  cbor_item_t* ia = cbor_load(ex, nx, &ra);
+  free(ex);
+  if (ia && ra.read == nx) {
+    memcpy(reg, x, nx);
+    memset(reg + nx, 0xff, 64); /* what follows x must not matter */
+    cbor_item_t* ib = cbor_load(reg, claimed, &rb);
+    if (!ib) vh_violation("huge-buffer-changes-acceptance", "x decodes alone (read=%zu) but in a %zu-byte buffer cbor_load fails with %s at %zu", ra.read, claimed, code_name((int)rb.error.code), rb.error.position);
+    else {
+      if (rb.read != ra.read) vh_violation("huge-buffer-changes-read", "read=%zu alone, %zu in a %zu-byte buffer", ra.read, rb.read, claimed);
+      struct vh_buf da = {0}, db = {0};
+      walk_dump_item(ia, &da, WD_REFCOUNTS); walk_dump_item(ib, &db, WD_REFCOUNTS);
+      if (da.n != db.n || memcmp(da.p, db.p, da.n)) vh_violation("huge-buffer-changes-tree", "tree decoded from a %zu-byte buffer differs", claimed);
+      vb_free(&da); vb_free(&db);
+      cbor_decref(&ib);
+    }
+    VH_COUNT("huge.buffer_cases", 1);
+    vh_nontrivial(vh_hash(d.p, d.n));
+  } else VH_COUNT("skipped.x-not-one-item", 1);
+  if (ia) cbor_decref(&ia);
+  if (ta_live_count()) { vh_violation("leak", "%zu block(s) left", ta_live_count()); ta_forget_all(); }
+  vb_free(&d);
+}
+static void stage_hugebuf(void) {
+  uint64_t nsys = gen_systematic_count();
+  static const size_t sizes[] = {((size_t)1 << 32) - 1, (size_t)1 << 32, ((size_t)1 << 32) + 1, ((size_t)1 << 32) + 2, ((size_t)1 << 32) + 5, ((size_t)1 << 32) + 9, ((size_t)3 << 31) + 3, (size_t)1 << 33, ((size_t)1 << 33) + 11};
+  struct vh_buf x = {0};
+  uint64_t stride = O.thorough ? 3 : 29;
+  uint64_t unit = 0;
+  for (uint64_t u = 0; u < nsys; u += stride) {
+    if ((int)(unit++ % (uint64_t)O.nshards) != O.shard) continue;
+    rnode* t = gen_systematic(u);
+    if (!t) continue;
+    vb_reset(&x);
+    ref_encode_src(t, &x);
+    rn_free(t);
+    if (x.n > 2000) continue;
+    for (size_t si = 0; si < sizeof sizes / sizeof sizes[0]; si++) hugebuf_case(x.p, x.n, sizes[si]);
+    /* 2^32 + k for every k up to the item's length: every head of x is claimed with the low 32 bits of the remaining size running out */
+    for (size_t k = 0; k <= x.n && k <= 40; k++) hugebuf_case(x.p, x.n, ((size_t)1 << 32) + k);
+  }
+  vb_free(&x);
+}
+
 static void load_run(void) {
   setup();
   size_t bytesN = O.thorough ? 4 : 3;
@@ -687,6 +747,7 @@ static void load_run(void) {
   else if (!strcmp(st, "gram")) stage_gram();
   else if (!strcmp(st, "deep")) stage_deep();
   else if (!strcmp(st, "seq")) stage_seq();
+  else if (!strcmp(st, "hugebuf")) stage_hugebuf();
   else vh_die("driver load: unknown stage '%s'", st);
   if (P == 1) vh_set_rule("every enumerated/generated input is run through load, describe, size, serialize, serialize_alloc, copy, release and two streaming passes under ASan+UBSan with CBOR_ASSERT armed; non-trivial = the decoder got past the first head (an item was built, or the failure is a hard error / truncation after at least one complete head); distinct by construction in the exhaustive sweep, by 64-bit hash elsewhere (inputs short enough to be in the sweep are not counted again)");
   else if (P == 2) vh_set_rule("each input is decoded by cbor_load and by the independent RFC 8949 reference decoder; non-trivial = at least one side accepts (tree, read and ownership are then compared); distinct by construction in the exhaustive sweep, by hash elsewhere");
